@@ -78,6 +78,11 @@ POST_FORK = ['crop', ['pad', 1], ['mask', 'circle'], ['mask', 'half'], ['fill', 
              ['filter', 0.5], 'read_r', 'pvr', ['pvr_r', 0.8], 'bandlimited_rms']
 
 
+# restricted alphabet of the size-threshold unit ``large`` (every mutator whose cost or algorithm may depend on the sample count)
+LARGE_EVENTS = ['remove_piston', 'remove_tiptilt', 'remove_power', 'crop', ['mask', 'circle'], ['spike_clip', 1.5], ['fill', 0.0],
+                'read_r', ['pad', 1]]
+
+
 def ev_name(ev):
     return ev if isinstance(ev, str) else ev[0]
 
@@ -140,7 +145,7 @@ def _make_data(init, seed):
 
 
 class St:
-    __slots__ = ('ifg', 'dead', 'other', 'mode', 'snap')
+    __slots__ = ('ifg', 'dead', 'other', 'mode', 'snap', 'scale')
 
     def __init__(self, ifg):
         self.ifg = ifg          # the primary object: every event is applied to it
@@ -148,10 +153,21 @@ class St:
         self.other = None       # second object after a fork: never touched again, judged in every state
         self.mode = None        # None | 'fork' (other = the copy) | 'fork_swap' (other = the original, primary = the copy)
         self.snap = None        # what ``other`` reported at the moment of the fork
+        self.scale = 1.0        # magnitude of the initial data (the canonical state rounds data relative to it)
 
 
 def fresh(init, seed):
-    return St(Interferogram(make_data(init, seed), dx=init['dx']))
+    z = make_data(init, seed) * float(init.get('scale', 1.0))
+    lay = init.get('layout', 'C')
+    if lay == 'F':          # column-major buffer, as a transposed map or a Fortran-ordered reader would hand over
+        z = np.asfortranarray(z)
+    elif lay == 'view':     # a window into a larger frame with a reversed row stride: non-contiguous, ravel() copies
+        big = np.full((z.shape[0] + 2, 2 * z.shape[1] + 1), 7.0)
+        big[1:-1, 1::2][::-1] = z
+        z = big[1:-1, 1::2][::-1]
+    st = St(Interferogram(z, dx=init['dx']))
+    st.scale = float(init.get('scale', 1.0))
+    return st
 
 
 # ---------------------------------------------------------------------------------------------
@@ -386,7 +402,7 @@ def canon(st):
         if obj is None:
             h.update(b'no-fork')
             continue
-        _dig(h, obj.data)
+        _dig(h, obj.data if st.scale == 1.0 else np.asarray(obj.data, dtype=float) / st.scale)
         h.update(repr((float(obj.dx) if _isnum(obj.dx) else repr(obj.dx), bool(obj._latcaled))).encode())
         for k in ('_x', '_y', '_r', '_t'):
             _dig(h, getattr(obj, k, None))
@@ -713,13 +729,20 @@ def plan(tier, seed):
     shapes = [[6, 6], [5, 7], [6, 5]]
     inits = [{'shape': s, 'nan': p, 'dx': dx}
              for p in ('none', 'circle', 'ragged', 'dropout') for s in shapes for dx in (0.5, 0.0)]
+    # memory-layout dimension of the initial state (odd x even shape, the fourth parity class): the data buffer handed to the
+    # constructor is column-major, or a strided window of a larger frame (in-place steps then act on a non-contiguous array)
+    inits += [{'shape': [5, 6], 'nan': p, 'dx': 0.5, 'layout': lay} for lay in ('F', 'view') for p in ('none', 'ragged')]
+    # magnitude dimension: the same maps in units in which the heights are ~1e-9 / ~1e7 (every law of the property is
+    # homogeneous in the data, and every tolerance of this oracle is relative to the data scale)
+    inits += [{'shape': [6, 6], 'nan': p, 'dx': 0.5, 'scale': sc} for sc in (1e-9, 1e7) for p in ('none', 'circle')]
     depth = 3 if tier == 'quick' else 4
     deep = [{'shape': [6, 6], 'nan': 'none', 'dx': 0.5}, {'shape': [5, 7], 'nan': 'ragged', 'dx': 0.5},
             {'shape': [6, 5], 'nan': 'circle', 'dx': 0.0}, {'shape': [6, 6], 'nan': 'dropout', 'dx': 0.5}]
     names = ', '.join(ev if isinstance(ev, str) else f'{ev[0]}({ev[1]})' for ev in _alphabet(tier))
     rule = (f'BFS to depth {depth} over every sequence of the {len(_alphabet(tier))} events [{names}] (filter enabled only on fully valid, calibrated, '
             '>= 4x4 data) from every initial state in shapes {6x6, 5x7, 6x5} x NaN pattern {none, circular aperture, ragged edge, interior '
-            'drop-out} x dx {0.5, 0 = uncalibrated}; data = fixed smooth field + seeded texture; states merged by (shape, dx, latcal flag, '
+            'drop-out} x dx {0.5, 0 = uncalibrated}, plus 5x6 data handed over as a column-major buffer / as a strided window of a larger '
+            'frame (NaN pattern none, ragged), plus 6x6 data scaled by 1e-9 / 1e7 (NaN pattern none, circle); data = fixed smooth field + seeded texture; states merged by (shape, dx, latcal flag, '
             'populated caches + their values, NaN set, data rounded to 1e-9); coordinate invariants, statistics and the per-event reference '
             'model are evaluated after every event; states with incoherent coordinates or a raised exception are reported and not expanded; '
             'a transition is non-trivial when the array has more than one sample')
@@ -732,13 +755,23 @@ def plan(tier, seed):
                              'calibrated and uncalibrated): ' + ', '.join(f"{d['shape'][0]}x{d['shape'][1]}/{d['nan']}/dx={d['dx']}" for d in deep),
                              summary=summary, step_check=step_check, reset=rs))
     fdepth = 4 if tier == 'quick' else 5
-    finits = [i for i in inits if i['dx'] == 0.5]
+    finits = [i for i in inits if i['dx'] == 0.5 and (tier == 'thorough' or ('layout' not in i and 'scale' not in i))]
     units.append(HistoryUnit('forks', finits, fresh, make_events(tier, PRE_FORK, POST_FORK), apply, check, canon, fdepth,
-                             f'second-object dimension, BFS to depth {fdepth} from the 12 calibrated initial states: histories P* F M* where P = '
+                             f'second-object dimension, BFS to depth {fdepth} from the {len(finits)} calibrated initial states: histories P* F M* where P = '
                              f'{[ev_name(e) for e in PRE_FORK]} shapes the caches, F in {{fork: other = ifg.copy(), go on with the original; fork_swap: go on '
                              'with the copy, the original is the other}} occurs at most once at any position, M = the mutators + read_r are applied '
                              'to the primary object only; in every state BOTH objects are judged: the primary as in the other units, the other one '
                              'must stay coherent on its own (shape, spacing, polar consistency, statistics) and bit-for-bit what it reported at '
                              'the fork (data, dx, x, y, r, t read without populating its caches); the fork state is part of the canonical state',
+                             summary=summary, step_check=step_check, reset=rs))
+    # size thresholds: fits / statistics / crops that switch to decimated, blocked or windowed evaluation above a sample count
+    large = [{'shape': [130, 129], 'nan': 'ragged', 'dx': 0.5}, {'shape': [300, 301], 'nan': 'circle', 'dx': 0.5},
+             {'shape': [1030, 1031], 'nan': 'none', 'dx': 0.5}]
+    if tier == 'thorough':
+        large += [{'shape': [257, 1030], 'nan': 'dropout', 'dx': 0.5}, {'shape': [1100, 1100], 'nan': 'circle', 'dx': 0.0}]
+    units.append(HistoryUnit('large', large, fresh, make_events(tier, LARGE_EVENTS), apply, check, canon, 2,
+                             'threshold alphabet of map sizes (16770, 90300 and 1061930 samples: above 2^14, 2^16 and 2^20 and not a multiple '
+                             f'of any power of two >= 2^7), BFS to depth 2 over {[ev_name(e) for e in LARGE_EVENTS]} with the same invariants and '
+                             'per-event reference models (every sample is judged, the tail of the arrays included); not closed over sizes',
                              summary=summary, step_check=step_check, reset=rs))
     return units
